@@ -27,6 +27,12 @@ def rotation_heavy(rng, n, comps):
                     and not (o["op"] == "setbp" and o["i"] < 200 and o["i"] >= len(h["preamble"]["bps"]))]
         # rotation whose argument is a file name although the exporter writes to a descriptor (and vice versa): the
         # writer silently ignores it while the exporter believes the output was switched -> known finding C13-kind-mismatch
+        # a rotation to descriptor 0 (a process that closed its standard input gets 0 from its next open()); at most one per
+        # history, and only while no earlier output of the history can still hold that descriptor
+        if h["out"] == "fd" and i % 4 == 3:
+            rots = [o for o in h["ops"] if o["op"] == "rot"]
+            if rots:
+                rng.choice(rots)["fd0"] = True
         if h["out"] == "fd" and h["comp"] == "none" and i % 4 == 1:
             rots = [o for o in h["ops"] if o["op"] == "rot"]
             if rots:
